@@ -1,0 +1,127 @@
+//! Verification hooks (only compiled with `--cfg affinitree_verif`).
+//!
+//! Provides a thread-local interception point for [`crate::linalg::affine::Polytope::solve_linprog`]:
+//! a call counter, an optional call log, and an optional fault plan that overrides the
+//! answer of the LP backend at chosen call positions.
+
+use std::cell::RefCell;
+use std::collections::HashMap;
+
+use ndarray::Array1;
+
+use crate::linalg::affine::Polytope;
+use crate::linalg::polyhedron::PolytopeStatus;
+
+/// A fault injected in place of (or on top of) the real answer of the LP backend.
+#[derive(Clone, Debug)]
+pub enum LpFault {
+    /// Report a solver error.
+    Error,
+    /// Report that the program is unbounded.
+    Unbounded,
+    /// If the real answer is optimal, add the given offset to the returned point.
+    Perturb(Vec<f64>),
+    /// If the real answer is optimal, replace every coordinate of the returned point by the given value.
+    Far(f64),
+}
+
+/// One logged call of the LP backend.
+#[derive(Clone, Debug)]
+pub struct LpCall {
+    pub index: usize,
+    pub poly: Polytope,
+    pub coeffs: Array1<f64>,
+    pub real: PolytopeStatus,
+    pub returned: PolytopeStatus,
+}
+
+#[derive(Default)]
+struct State {
+    counter: usize,
+    active: bool,
+    logging: bool,
+    log: Vec<LpCall>,
+    plan: HashMap<usize, LpFault>,
+    in_hook: bool,
+}
+
+thread_local! {
+    static STATE: RefCell<State> = RefCell::new(State::default());
+}
+
+/// Resets counter, log and fault plan and activates interception with the given plan.
+pub fn arm(plan: HashMap<usize, LpFault>, logging: bool) {
+    STATE.with(|s| {
+        let mut s = s.borrow_mut();
+        s.counter = 0;
+        s.active = true;
+        s.logging = logging;
+        s.log.clear();
+        s.plan = plan;
+        s.in_hook = false;
+    });
+}
+
+/// Deactivates interception and returns the number of intercepted calls and the call log.
+pub fn disarm() -> (usize, Vec<LpCall>) {
+    STATE.with(|s| {
+        let mut s = s.borrow_mut();
+        s.active = false;
+        s.in_hook = false;
+        s.plan.clear();
+        (s.counter, std::mem::take(&mut s.log))
+    })
+}
+
+/// Called at the top of `solve_linprog`. Returns `Some(status)` to override the answer.
+pub fn lp_intercept(poly: &Polytope, coeffs: &Array1<f64>) -> Option<PolytopeStatus> {
+    let (index, fault, logging) = STATE.with(|s| {
+        let mut s = s.borrow_mut();
+        if !s.active || s.in_hook {
+            return None;
+        }
+        let index = s.counter;
+        s.counter += 1;
+        let fault = s.plan.get(&index).cloned();
+        if fault.is_none() && !s.logging {
+            return None;
+        }
+        s.in_hook = true;
+        Some((index, fault, s.logging))
+    })?;
+
+    let real = poly.solve_linprog(coeffs.clone(), false);
+
+    let returned = match (&fault, &real) {
+        (None, _) => real.clone(),
+        (Some(LpFault::Error), _) => PolytopeStatus::Error("injected fault".to_string()),
+        (Some(LpFault::Unbounded), _) => PolytopeStatus::Unbounded,
+        (Some(LpFault::Perturb(delta)), PolytopeStatus::Optimal(w)) => {
+            let mut w = w.clone();
+            for (x, d) in w.iter_mut().zip(delta.iter()) {
+                *x += *d;
+            }
+            PolytopeStatus::Optimal(w)
+        }
+        (Some(LpFault::Far(v)), PolytopeStatus::Optimal(w)) => {
+            PolytopeStatus::Optimal(Array1::from_elem(w.len(), *v))
+        }
+        (Some(_), other) => other.clone(),
+    };
+
+    STATE.with(|s| {
+        let mut s = s.borrow_mut();
+        s.in_hook = false;
+        if logging {
+            s.log.push(LpCall {
+                index,
+                poly: poly.clone(),
+                coeffs: coeffs.clone(),
+                real,
+                returned: returned.clone(),
+            });
+        }
+    });
+
+    Some(returned)
+}
